@@ -1,5 +1,9 @@
 """C18 — rejections name the offending field; collect-all mode reports all invalid ones.
 
+Streams: random argument sets; the enumerated lattice of harness/c18lattice.py (leaf kind x value class x
+position); the validation chains of harness/c18guards.py (real field objects against the chains regenerated
+into Gen/GuardProgs.v); nested documents.
+
 Proof obligations: Props/C18.v (theorems over ALL names / value texts / argument lists; the template
 table Gen/Templates.v is regenerated from the raise sites of the working tree on every run).
 Tie to the code: (1) every observed field-level exception is re-rendered inside Coq from the generated
@@ -1219,6 +1223,10 @@ def run(rep, tier):
         "C18_template_ok assumes identifier (ASCII) class and field names and no newline in the value text or in a parameter text",
         "try_expand (collect-all mode) is modelled only up to 'the problem text cannot start a JSON document'; other texts are PExpanded (not compared)",
         "repr of the re.Match object that _transform_class_to_readable interpolates for classes outside its table is opaque (PMatchRepr)",
+        "the chain theorems (C18_rejection_is_templated) assume a field object that fits the schema of Errors/GuardSchema.v "
+        "(compared with every generated field object) and speak about the validation chain up to Field.__set__: element "
+        "wrappers of collections and Enum's conversion after validation are judged on observed behaviour only",
+        "getattr(instance, '_skip_validation' | '_trust_supplied_values', False) is False (ordinary construction)",
     ]
     ws_ok, pats_ok = regex_oracle_checks(rep)
     assert Structure.failing_fast()
@@ -1390,7 +1398,13 @@ def run(rep, tier):
         if not any(not v["no_input"] for v in rep.violations) and not getattr(rep, "build_failed", None):
             pass
     return rep.finish(
-        rule="cases = flat class (2-5 fields: scalars, Array/Deque/Set/Tuple/Map of scalars) + argument set with a random "
-             "subset of supplied fields made invalid (wrong type / bound / element at a chosen index / key / value / newline text / "
-             "generic corruption); each run under construction and Deserializer, fail-fast on and off; distinct = distinct "
-             "(field shapes, corruption kinds); non-trivial = at least one invalid field")
+        rule="random: flat class (2-5 fields: scalars, Array/Deque/Set/Tuple/Map of scalars) + argument set with a random "
+             "subset of supplied fields made invalid (wrong type incl. unhashable / unorderable values, bound, element at a chosen "
+             "index, key, value, newline text, generic corruption); lattice: EVERY leaf kind (28: Number/Integer/Float x sign "
+             "mix-ins and bounds, String, Boolean, Enum over values / over a class, short and long) x EVERY wrong-value class (22) "
+             "at top level and in one (quick: rotating with the seed; thorough: every) position among Array/Deque item, positional "
+             "item, Tuple, Set, Map key, Map value; each under construction and Deserializer, fail-fast on and off; guard: every "
+             "leaf kind x (wrong-value classes + boundary values) and random scalar fields run through the real validation chain "
+             "and through the generated chain inside Coq; nested: fixed two-level and generated three-level documents with 1-3 "
+             "point corruptions. distinct = distinct (field shapes, corruption kinds) / lattice point / (kind, value class, "
+             "outcome); non-trivial = at least one invalid field")
